@@ -34,6 +34,7 @@ type Loc struct {
 	PathS  string     // ".f.g"
 	PathI  []int
 	Type   types.Type // type of the content at this location
+	Dummy  bool       // location inside an opaque (external) struct: reads are arbitrary, writes ignored
 }
 
 type Val struct {
